@@ -77,17 +77,19 @@ var selfTest = [][2]string{
 func Run(r *ev.Run, replay string) {
 	r.MaxSamples = 16
 	r.Rule = "(a) seeded PEP 508 grammar generator (names with mixed case and -_. runs, extras lists with odd spacing and duplicates, bare and parenthesised specifier lists incl. ===, markers, space/tab whitespace everywhere the grammar allows it); every string packaging 21.3 accepts as a non-URL requirement is parsed by pypi.ParseDependency and compared field by field (name vs canonicalize_name, extras as a set, specifier clauses as a set with whitespace removed, marker by packaging normal form of the library's marker text and by truth under 16 environments); CanonPackageName vs canonicalize_name and idempotence on generated names. Non-trivial = distinct accepted string carrying at least two of {extras, specifier, marker}. " +
-		"(b) marker expressions (and/or/parentheses to depth 4, all eleven variables + extra, both operand orders, every operator, literals straddling the variable's actual value) placed on the single dependency root->dep of a three-package universe in a resolve.LocalClient; top requests root with the extras under test; resolved with the PyPI resolver under a client-call budget; observable = presence of the edge root->dep, oracle = Marker.evaluate in the environment read from env.gen.go and confirmed by probing the resolver. Non-trivial = distinct in-domain marker with >=2 atoms whose truth is not constant over the probe environments."
+		"(b) marker expressions (and/or/parentheses to depth 4, all eleven variables + extra, both operand orders, every operator, literals straddling the variable's actual value) placed on the single dependency root->dep of a three-package universe in a resolve.LocalClient; top requests root with the extras under test; resolved with the PyPI resolver under a client-call budget; observable = presence of the edge root->dep, oracle = Marker.evaluate in the environment read from env.gen.go and confirmed by probing the resolver. Every in-domain marker is resolved twice more or less: on a fresh resolver (via top, and from root itself when no extras are requested) and, in a seeded order together with the other markers of its batch, on ONE shared resolver object whose verdict must equal the fresh one. A quarter of each batch are families: a base (often pivoting on the exact text of a literal) and members differing only in blanks outside literals, blanks inside one literal, the case of one literal, quote style or operand order, each judged against packaging on its own. Non-trivial = distinct in-domain marker with >=2 atoms whose truth is not constant over the probe environments."
 	r.Assumptions = []string{
 		"reference: pip._vendor.packaging 21.3 (the generation the library mirrors), trusted after a start-up self-test",
 		"requirement strings use only space and tab as whitespace (PEP 508 wsp); strings packaging rejects or parses as URL requirements are outside the domain",
 		"an arbitrary-equality clause (===v) is always followed by whitespace before ',' ';' or ')': packaging's === token swallows any non-space characters, which the PEP 508 grammar the property quantifies over does not allow",
 		"specifier clauses are compared as sets under packaging's own clause identity (>=1.0 and >=1.0.0 are one element of a SpecifierSet); every clause packaging reports must occur literally (whitespace removed) in the library's text",
-		"'not in' is written with exactly one space: packaging 21.3 recognises no other spelling (and, through pyparsing's tab expansion, accepts not<TAB>in only at some columns); string literals carry no tabs and no leading/trailing blanks",
+		"'not in' is written with exactly one space: packaging 21.3 recognises no other spelling (and, through pyparsing's tab expansion, accepts not<TAB>in only at some columns); string literals carry no tabs (pyparsing expands them inside literals); blanks inside literals are generated",
 		"marker atom domain: markers packaging rejects or whose evaluation raises UndefinedComparison/UndefinedEnvironmentName (literal against literal, ~= on non-versions) are outside the domain",
 		"marker atom domain: atoms whose left value is not a PEP 440 version while operator+right value is a valid specifier are not judged (packaging 21.3 coerces the left side to LegacyVersion, later generations compare strings or refuse); this covers === on string-valued variables",
 		"marker atom domain: where the left value goes through Version() two more 21.3-only behaviours are not judged: === with a left literal that is not in normal form (21.3 compares str(Version(left))), and a pre/dev-release literal on the left of a version comparison (21.3 drops pre-releases in Specifier.contains, later generations pass prereleases=True)",
-		"version literals are written in PEP 440 normal form without epoch or local segment (as C03 restricts its ranges): other spellings (v3.9, 03.9, 3.9_post2, 1!3.9, 3.9+l) probe the version and range parsers of util/semver (C02/C03), not the marker evaluator",
+		"version literals are written in PEP 440 normal form, with a leading v/V or with a leading zero, without epoch or local segment (as C03 restricts its ranges): the remaining spellings (3.9_post2, 1!3.9, 3.9+l) probe the version and range parsers of util/semver (C02/C03), not the marker evaluator; a literal padded with blanks (\" 3.9\") is a version for packaging and a string for the library and is not generated",
+		"~= with a right literal that is not in normal form (v3.9, 03.9) is not judged: packaging 21.3 derives the prefix from the specifier text and never matches, later generations (and the library) work on the parsed version",
+		"the shared-resolver pass issues Resolve calls sequentially (concurrent use of one resolver is C05/C18's subject)",
 		"extra is compared with == only (both operand orders) against non-empty names: the library documents and tests that any other operator on extra is rejected, as setuptools never emits one",
 		"a resolution requests several extras at once only when the marker mentions at most one distinct extra literal: packaging evaluates one extra at a time and pip takes the disjunction over the requested extras, whereas the library looks every extra atom up in the union; on the restricted domain the two readings coincide",
 		"the target environment is the Markers table of util/resolve/pypi/internal/env.gen.go read as text (the package is internal); every value is confirmed by probing the resolver with `var === \"candidate\"` markers before it is used",
